@@ -128,7 +128,7 @@ fn exec<D: Doc>(p: &PrepDoc<D>, m: Mutation, via: Via, scratch: &std::path::Path
             })
         }),
         Via::File(loader, flags) => {
-            if !Loader::AVAILABLE.contains(&loader) {
+            if !Loader::AVAILABLE.contains(&loader) || !super::world::loader_supported(loader, flags, scratch) {
                 return Ok((0, "unavailable"));
             }
             let path = scratch.join("c10.bin");
